@@ -78,6 +78,17 @@ def stateTraceOne (rho : CMat) (atol : Rat) : Option Bool := do
 /-- QOperation.is_physical: `eq(atol_eq) and ineq(atol_ineq)` -/
 def physical (eq ineq : Bool) : Bool := eq && ineq
 
+/-- `atol = Settings.get_atol() if atol is None else atol` — resolved separately inside each sub-verdict -/
+def resolveTol (a : Option Rat) (g : Rat) : Rat :=
+  match a with
+  | some x => x
+  | none => g
+
+/-- `is_physical(atol_eq_const, atol_ineq_const)` with optional tolerances and the global setting `g`:
+each missing tolerance is the global one, independently of the other -/
+def physicalArgs (eq ineq : Rat → Bool) (ae ai : Option Rat) (g : Rat) : Bool :=
+  physical (eq (resolveTol ae g)) (ineq (resolveTol ai g))
+
 def statePhysical (rho : CMat) (eigs : List Rat) (atolEq atolIneq : Rat) : Option Bool := do
   let a ← stateTraceOne rho atolEq
   let b ← psdVerdict rho eigs atolIneq
@@ -218,6 +229,15 @@ def handle (args : List String) : Option String :=
       let chois : List CMat := (blocks (n * n) m c).map fun e => ⟨n, e⟩
       let eigss := blocks n m eigs
       some s!"{obit (mpSumTp (onh0 = 1) n t H ae)} {obit (mpCp chois eigss ai)} {obit (mpPhysical (onh0 = 1) n t H chois eigss ae ai)}"
+  | ["physargs", ae, ai, g, eGiven, eGlobal, iGiven, iGlobal] => do
+      -- sub-verdicts of the implementation at the given tolerance (`a`) and at the global one; "n" = tolerance omitted
+      let g ← parseRat? g
+      let ae ← if ae = "n" then some none else (parseRat? ae).map some
+      let ai ← if ai = "n" then some none else (parseRat? ai).map some
+      let eG ← parseNat? eGiven; let eg ← parseNat? eGlobal; let iG ← parseNat? iGiven; let ig ← parseNat? iGlobal
+      let eq := fun (t : Rat) => if t = g then eg = 1 else eG = 1
+      let ineq := fun (t : Rat) => if t = g then ig = 1 else iG = 1
+      some (bit (physicalArgs eq ineq ae ai g))
   | ["mk", req, phys] => do
       let req ← parseNat? req; let phys ← parseNat? phys
       some (match mk (req = 1) (phys = 1) with | .ok => "ok" | .notPhysical => "notPhysical")
